@@ -14,8 +14,18 @@ import catalog
 
 def sh(cmd, cwd, timeout=900):
     env = dict(os.environ); env['CARGO_NET_OFFLINE'] = 'true'; env['CARGO_TARGET_DIR'] = os.path.join(os.path.dirname(cwd), 'target')
-    p = subprocess.run(cmd, cwd=cwd, shell=True, capture_output=True, text=True, env=env, timeout=timeout)
-    return p.returncode, (p.stdout + p.stderr)
+    import signal
+    p = subprocess.Popen(cmd, cwd=cwd, shell=True, stdout=subprocess.PIPE, stderr=subprocess.STDOUT, text=True, env=env, start_new_session=True)
+    try:
+        out, _ = p.communicate(timeout=timeout)
+        return p.returncode, out
+    except subprocess.TimeoutExpired:
+        return 124, 'timeout'
+    finally:
+        try:
+            os.killpg(p.pid, signal.SIGKILL)      # a demo that hangs must not outlive this tool
+        except Exception:
+            pass
 
 def run_rules(root):
     prog = Program(*extract(root))
